@@ -62,8 +62,9 @@ META = {
             "executable walk_spec (sets whose membership exceeds A_REAL_EPSILON), and 'at most nfuzz active sets' and "
             "'table long enough for its tags' are hypotheses.",
     "technique": "Rocq proof over R (case analysis + lra/nra/field, stdlib continuity and Rpower, forward simulation of the "
-                 "loops over explicit scratch lists by induction) + bit-exact primitive-float model vs C correspondence "
-                 "under ASan + independent reference oracle",
+                 "loops over explicit scratch lists by induction) + mf.c/fuzzy.c/fuzzy.h (13 membership functions, the dispatcher per tag, "
+                 "9 operators) regenerated by a translator and proved equal to the model on every run + bit-exact "
+                 "primitive-float model vs C correspondence under ASan + independent reference oracle",
 }
 
 H = vlib.VERIF / "harness" / "C13"
@@ -732,8 +733,17 @@ def par_run_model(ctx, name, exprs):
     return out
 
 
+MF_NAMES = ["a_mf_gauss", "a_mf_gauss2", "a_mf_gbell", "a_mf_sig", "a_mf_dsig", "a_mf_psig", "a_mf_trap", "a_mf_tri", "a_mf_lins",
+            "a_mf_linz", "a_mf_s", "a_mf_z", "a_mf_pi"] + ["a_mf@e=%d" % i for i in range(0, 15)]
+OPR_NAMES = ["a_fuzzy_not", "a_fuzzy_cap", "a_fuzzy_cap_algebra", "a_fuzzy_cap_bounded", "a_fuzzy_cup", "a_fuzzy_cup_algebra",
+             "a_fuzzy_cup_bounded", "a_fuzzy_equ", "a_fuzzy_equ_"]
+
+
 def run(ctx):
     ctx.prove()
+    # second tie: mf.c, fuzzy.c and fuzzy.h are REGENERATED by the translator and proved equal to the hand model, one theorem per
+    # membership function, per dispatcher tag and per operator, for every NumOps instance
+    ctx.translate_and_tie([("src/mf.c", MF_NAMES), ("src/fuzzy.c", OPR_NAMES)], "GenMf", H / "TieMf.v", have=1, real=8)
     ctx.assumptions += ["floating-point rounding and libm accuracy are not part of the theorems; the oracle compares the real-libm "
                         "build with the documented definitions to 1e-9",
                         "C built with gcc -O2 -ffp-contract=off -fsanitize=address; exp/pow substituted identically in the bit-exact run"]
